@@ -49,6 +49,9 @@ type realm struct {
 	clients map[wamp.ID]*wamp.Session
 	// session ID -> testament
 	testaments map[wamp.ID]testamentBucket
+	// Sessions ended by realm shutdown, whose peers are closed by close()
+	// after the broker and dealer have stopped.
+	shutdownSessions []*wamp.Session
 
 	metaPeer  wamp.Peer
 	metaSess  *wamp.Session
@@ -225,6 +228,12 @@ func (r *realm) close() {
 	r.dealer.close()
 	r.broker.close()
 
+	// Nothing can be routed to the sessions any more, so close their peers.
+	for _, sess := range r.shutdownSessions {
+		sess.Close()
+	}
+	r.shutdownSessions = nil
+
 	// Finally close realm's action channel.
 	close(r.actionChan)
 	<-r.stopped
@@ -350,8 +359,12 @@ func (r *realm) onLeave(sess *wamp.Session, shutdown, killAll bool) {
 		}
 
 		// If realm is shutdown, do not bother to remove session from broker
-		// and dealer. They will be closed after sessions are closed.
-		if !shutdown {
+		// and dealer. They will be closed after sessions are closed. Since
+		// the broker and dealer may still route messages to the session
+		// until then, its peer is closed only after they have stopped.
+		if shutdown {
+			r.shutdownSessions = append(r.shutdownSessions, sess)
+		} else {
 			// Remove the session's subscriptions first, so that the meta
 			// events about its registrations are not sent to the session
 			// that is leaving.
@@ -435,7 +448,9 @@ func (r *realm) handleSession(sess *wamp.Session, welcome *wamp.Welcome) error {
 			}
 		}
 		r.onLeave(sess, shutdown, killAll)
-		sess.Close()
+		if !shutdown {
+			sess.Close()
+		}
 		r.waitHandlers.Done()
 	}()
 
